@@ -98,6 +98,29 @@ def run_shard(spec, acc):
         randomised(spec, acc)
 
 
+def very_deep_chain(rnd, acc):
+    """A package nested deeper than the interpreter's recursion limit (1100-1300 levels): legal, absurd, and a trap for
+    any recursive walk over the module tree."""
+    depth = rnd.randint(1100, 1300)
+    chain = ["r.p"]
+    for k in range(depth):
+        chain.append(chain[-1] + f".d{k % 7}")
+    mods = ["r"] + chain + ["r.x", "r.y", "r.y.s"]
+    imps = sorted({("r.x", chain[-1]), (chain[depth // 2], "r.y.s"), ("r.y", chain[3]), (chain[-1], "r.x")} - set(rnd.sample([("r.x", chain[-1]), ("r.y", chain[3])], 1)))
+    ev = build(mods, imps, check=False)
+    from ..monitors import HUB as _H
+
+    _H.register_truth(ev, set(mods), set(imps))
+    for verb in rrule.VERBS:
+        for d in rrule.DIRS:
+            for exc in (False, True):
+                cfg = {"verb": verb, "dir": d, "exc": exc, "subs": [("named", "r.x")], "objs": [("named", "r.p")], "anything": False}
+                _eval(ev, ["r", "r.p", "...", "r.x", "r.y", "r.y.s"], imps, cfg, acc, nontrivial_key=0)
+    for cfg in ({"verb": "should_not", "dir": "import", "exc": False, "subs": [("sub", "r.p")], "objs": [], "anything": True}, {"verb": "should_not", "dir": "be", "exc": True, "subs": [("named", "r.y")], "objs": [("sub", "r.p")], "anything": False}):
+        _eval(ev, ["r", "r.p", "...", "r.x", "r.y", "r.y.s"], imps, cfg, acc, nontrivial_key=0)
+    acc.count("very_deep_chains")
+
+
 def big(spec, acc):
     """Magnitudes: 80-250 modules, depth up to 12, hundreds of imports, batches of 10-60 subjects / objects, long names,
     many numbered siblings (n2 / n10 / n100), one module with very many importers."""
@@ -105,6 +128,7 @@ def big(spec, acc):
     from ..drive import LEAF_NAMES
 
     names = LEAF_NAMES + [f"n{i}" for i in range(130)] + ["x" * 70, "a_rather_long_package_name_" * 9]
+    very_deep_chain(rnd, acc)
     for _ in range(spec["n"]):
         mods = random_tree(rnd, 80, 250, depth=rnd.choice([3, 6, 12]), names=names)
         cand = [m for m in mods if m != "r"]
